@@ -116,6 +116,22 @@ func (e *SpecEnv) load(addr string, t types.Type) SVal {
 			}
 		}
 	}
+	// typed memory, references: a cell read through a path of static type t holds a reference that respects the
+	// heap-only types (Go's type safety; the untyped cell model does not know it by itself)
+	if (s == "Ptr" || s == "Slice" || s == "Iface") && !g.isC && len(g.DB.HeapTypes) > 0 {
+		ground := true
+		for _, b := range e.bound {
+			if strings.Contains(addr, b) {
+				ground = false
+			}
+		}
+		if ground && !g.rangeAssumed["ty:"+term] {
+			g.rangeAssumed["ty:"+term] = true
+			if f := g.typedFacts(term, t); f != "true" {
+				g.assume(f)
+			}
+		}
+	}
 	return SVal{S: term, T: t, Sort: s, Addr: addr}
 }
 
@@ -134,6 +150,9 @@ var typInt = types.Typ[types.Int]
 
 // ghostInt is the type of ghost counters (mathematical integers kept in their own heap H_GInt).
 var ghostInt = types.NewNamed(types.NewTypeName(0, nil, "ghostint", nil), types.Typ[types.Int], nil)
+
+// ghostLock is the type of the ghost state of locks (what the current caller holds), in a heap of its own (H_GLock).
+var ghostLock = types.NewNamed(types.NewTypeName(0, nil, "ghostlock", nil), types.Typ[types.Int], nil)
 
 func (e *SpecEnv) eval(x ast.Expr) SVal {
 	g := e.g
@@ -756,6 +775,12 @@ func (e *SpecEnv) evalCall(c *ast.CallExpr) SVal {
 		}
 		k := e.eval(args[0])
 		return SVal{S: app("select", app("select", g.mapVis(e.st, e.iterKeySort), pObj(e.iter)), k.S), T: bt, Sort: "Bool"}
+	case "nvisited":
+		// nvisited(): number of keys produced so far by the map iteration of the enclosing loop
+		if e.iter == "" {
+			specFail("nvisited() is only available in invariants of a loop ranging over a map")
+		}
+		return SVal{S: app("select", g.rawHeap(e.st, "M_nvis", "(Array Int Int)"), pObj(e.iter)), T: types.Typ[types.Int], Sort: "Int"}
 	case "iserr":
 		// iserr(e, *T) / iserr(e, sentinelVar): errors.As / errors.Is class membership
 		v := e.eval(args[0])
